@@ -119,6 +119,15 @@ CHECKS.update({
         design="5/C08"),
 })
 
+CHECKS.update({
+    "C05": dict(
+        engine="tgv-ide",
+        technique=FORM_E + " over a program model: the expected use->declaration map is known by construction from a reference implementation of the scoping rules",
+        text="Every admissible nesting path of scope-opening constructs up to the depth bound x every use position x both layouts is emitted from an AST by a printer that records, per identifier occurrence, the declaration TableGen's lookup order binds it to; the well-scoped variant (unresolvable probes replaced) is judged on go-to-definition at every offset of every use and on references of every declaration, the full variant on every out-of-scope use (must not resolve, must be reported as not found exactly on the use).",
+        note="positions the property leaves undefined are generated but not judged (listed in the evidence assumptions)",
+        design="5/C05"),
+})
+
 NOT_YET = {}
 
 def main():
